@@ -533,6 +533,38 @@ def type_fault_matrix():
     return out
 
 
+# what each native procedure of (ruschm base)/(ruschm write) admits: (least, most) argument counts, most = None for a rest
+# parameter. Written down here from the R7RS entries (the lower bounds of the variadic predicates and of make-vector are the
+# ones this implementation documents: it admits `(=)` and requires the fill of make-vector) - NOT read from the code.
+BUILTIN_ARITY = {
+    "apply": (1, None), "car": (1, 1), "cdr": (1, 1), "eqv?": (2, 2), "eq?": (2, 2), "cons": (2, 2),
+    "boolean?": (1, 1), "char?": (1, 1), "number?": (1, 1), "string?": (1, 1), "symbol?": (1, 1), "pair?": (1, 1),
+    "procedure?": (1, 1), "vector?": (1, 1), "not": (1, 1), "boolean=?": (0, None),
+    "+": (0, None), "*": (0, None), "-": (1, None), "/": (1, None),
+    "=": (0, None), "<": (0, None), "<=": (0, None), ">": (0, None), ">=": (0, None), "min": (1, None), "max": (1, None),
+    "abs": (1, 1), "sqrt": (1, 1), "exp": (1, 1), "ln": (1, 1), "log": (2, 2), "sin": (1, 1), "cos": (1, 1), "tan": (1, 1),
+    "asin": (1, 1), "acos": (1, 1), "atan": (1, 1), "atan2": (2, 2), "floor": (1, 1), "ceiling": (1, 1), "exact": (1, 1),
+    "floor-quotient": (2, 2), "floor-remainder": (2, 2), "newline": (0, 0), "vector": (0, None), "make-vector": (2, 2),
+    "vector-length": (1, 1), "vector-ref": (2, 2), "vector-set!": (3, 3), "display": (1, 1),
+}
+
+
+def arity_fault_matrix():
+    """every native procedure called with one argument fewer than it requires and with one more than it admits, directly, through
+    apply, and from the tail position of a procedure: each must stop with an arity error (the argument count is tested before any
+    argument is looked at, so the arguments themselves are harmless numbers)"""
+    out = []
+    for op in sorted(BUILTIN_ARITY):
+        lo, hi = BUILTIN_ARITY[op]
+        counts = ([lo - 1] if lo >= 1 else []) + ([hi + 1, hi + 2] if hi is not None else [])
+        for n in counts:
+            args = " ".join(str(i + 1) for i in range(n))
+            out.append(("(%s %s)" % (op, args)).replace(" )", ")"))
+            out.append("(apply %s (list %s))" % (op, args))
+            out.append(("((lambda () (%s %s)))" % (op, args)).replace(" )", ")"))
+    return out
+
+
 def index_fault_matrix():
     """vector-ref / vector-set! at every index just outside a vector of length 0..3 on either side (negative indices whose
     absolute value is inside the vector included), directly and through apply / a procedure"""
